@@ -323,10 +323,52 @@ func verifC06(kind, k, L, V, warm int) {
 	verifrt.Cover("end", true)
 }
 
+// HarnessC06History: splitting has no memory. After n identical two-slot MGETs (decoded, answered locally,
+// request object recycled each time) a three-slot request - involving one of those slots after two others -
+// is still split into one exact fragment per slot. Whatever the splitter keeps between requests (tables,
+// generation counters, pooled maps) has gone through n more rounds; n is chosen above 65536 so that 16-bit
+// counters have wrapped.
+func HarnessC06History(n int) {
+	w, h, c := verifDecodeWorld(0)
+	first := VerifEncode([]byte("mget"), []byte("{s}1"), []byte("{t}1"))
+	other := VerifEncode([]byte("mget"), []byte("{u}1"), []byte("{v}1"))
+	h.LocalFirst = n + 1
+	w.Feed(c, first)
+	for i := 0; i < n; i++ {
+		w.Feed(c, other)
+		if i%512 == 0 {
+			w.Sent(c)
+			h.Msgs = nil
+		}
+	}
+	h.Msgs = nil
+	w.Sent(c)
+	kind := verifrt.Choice("family", 3)
+	names := []string{"mget", "del", "mset"}
+	keys := [][]byte{[]byte("{t}2"), []byte("{u}2"), []byte("{s}2"), []byte("{v}2")}
+	args := [][]byte{[]byte(names[kind])}
+	for _, k := range keys {
+		args = append(args, k)
+		if kind == 2 {
+			args = append(args, []byte("val"))
+		}
+	}
+	h.LocalFirst = 0
+	w.Feed(c, VerifEncode(args...))
+	verifrt.Assert(len(h.Msgs) == 1 && len(h.Msgs[0].Frags) == 4, "one_fragment_per_slot")
+	for _, f := range h.Msgs[0].Frags {
+		fa, ok := verifParseStrict(f.Req)
+		verifrt.Assert(ok && len(fa) == 2+kind/2, "fragment_well_formed")
+		verifrt.Assert(int(f.Slot) == verifSpecSlot(fa[1]), "fragment_holds_exactly_the_keys_of_its_slot")
+	}
+	verifrt.Cover("end", true)
+}
+
 var _ = hashkit.Hash
 
 func init() {
 	verifrt.Register("HarnessC06", func(p []int64) { HarnessC06(int(p[0]), int(p[1]), int(p[2]), int(p[3])) })
+	verifrt.Register("HarnessC06History", func(p []int64) { HarnessC06History(int(p[0])) })
 	verifrt.Register("HarnessC06Refused", func(p []int64) { HarnessC06Refused(int(p[0]), int(p[1]), int(p[2]), int(p[3])) })
 	verifrt.Register("HarnessC06Warm", func(p []int64) { HarnessC06Warm(int(p[0]), int(p[1]), int(p[2]), int(p[3])) })
 }
